@@ -1,6 +1,8 @@
 """C08, part "optics": snell() and fresnel() over an n1 x n2 x theta lattice
-(real n1; real, complex-with-zero-imaginary-part and complex n2; incidence
-0..90 degrees incl. the Brewster angle and both sides of the critical angle).
+(real n1 as float or complex-typed; real, complex-with-zero-imaginary-part and
+complex n2 with either sign of the imaginary part; incidence 0..90 degrees
+incl. the Brewster angle and both sides of the critical angle), called with
+every combination of scalar / array arguments listed in LAYOUT.
 
 References in numpy.longdouble. For a real-valued n2 the stated invariant
 n1 sin(theta1) = n2 sin(theta2) is re-evaluated on the returned angle. For an
@@ -8,7 +10,9 @@ absorbing medium the invariant is read as phase matching along the surface:
 the returned real angle must be that of the planes of constant phase,
 tan(theta2) = n1 sin(theta1) / Re sqrt(n2^2 - n1^2 sin^2(theta1))
 (Born & Wolf 14.2; algebraically identical to the closed form of Liou quoted
-by the docstring, but evaluated through a complex square root).
+by the docstring, but evaluated through a complex square root). That angle
+does not depend on the sign of Im n2 (the sign only encodes the time
+convention), so n2 and its conjugate have the same reference.
 """
 import numpy as np
 
@@ -19,6 +23,18 @@ K = 16
 PI = 4 * np.arctan(LD(1))
 BAND = 1e-9                 # no lattice point this close to the critical angle
 BREWSTER_TOL = 1e-12        # DESIGN C08
+# mode -> form of (n1, n2, theta) in the call: None = scalar, "row" = (n,)
+# array, "col" = (n, 1) array; the result has the broadcast shape
+LAYOUT = {
+    "scalar": (None, None, None),
+    "theta-array": (None, None, "row"),
+    "n2-array": (None, "row", None),
+    "grid": (None, "col", "row"),
+    "n1-array": ("row", None, None),
+    "n1-n2-arrays": ("row", "row", None),
+    "n1-column": ("col", None, "row"),
+}
+N1_TYPES = ("float", "complex")     # complex = complex-typed, zero imaginary
 
 
 def n2_values(tier):
@@ -26,11 +42,11 @@ def n2_values(tier):
     complex scalar."""
     real = [1.0, 1.5, 0.8]
     zero = [3.0, 0.8]
-    cplx = [(3.0, 0.5), (1.2, 2.0)]
+    cplx = [(3.0, 0.5), (1.2, 2.0), (3.0, -0.5), (1.2, -2.0)]
     if tier == "thorough":
         real += [1.0003, 1.33, 4.0, 9.0]
         zero += [1.33]
-        cplx += [(1.5, 1e-3), (9.0, 1.0), (0.5, 3.0)]
+        cplx += [(1.5, 1e-3), (9.0, 1.0), (0.5, 3.0), (1.5, -1e-3)]
     return ([(r, 0.0, "float") for r in real]
             + [(r, 0.0, "complex") for r in zero]
             + [(r, i, "complex") for r, i in cplx])
@@ -44,16 +60,16 @@ def brewster(n1, re):
     return float(np.arctan(LD(re) / LD(n1)) * 180 / PI)
 
 
-def thetas(tier, n1, n2):
+def thetas(tier, n1s, n2):
+    """Incidence angles for calls combining each of n1s with each of n2."""
     if tier == "quick":
         out = [0.0, 1e-6] + [10.0 * i for i in range(1, 9)] + [89.999, 90.0]
     else:
         out = [0.0, 1e-6] + [0.25 * i for i in range(1, 360)] + [89.999, 90.0]
-    for re, im, _ in n2:
-        if im == 0:
-            out.append(brewster(n1, re))
+    pairs = [(n1, re, im) for n1 in n1s for re, im, _ in n2]
+    out += [brewster(n1, re) for n1, re, im in pairs if im == 0]
     out = sorted(set(out))
-    for re, im, _ in n2:
+    for n1, re, im in pairs:
         for t in out:
             beyond_critical(n1, re, im, t)       # asserts the empty band
     return out
@@ -74,36 +90,54 @@ def beyond_critical(n1, re, im, theta):
 
 
 def shards(tier):
-    return [("optics", tier, n1, mode) for n1 in n1_values(tier)
-            for mode in ("scalar", "theta-array", "n2-array")]
+    """Scalar-n1 modes: one shard per n1; n1-array modes: all n1 at once."""
+    return [("optics", tier, n1type, n1, mode)
+            for n1type in N1_TYPES for mode, layout in LAYOUT.items()
+            for n1 in (n1_values(tier) if layout[0] is None else [None])]
+
+
+def n2_groups(n2s):
+    """The n2 arrays: real, zero-imaginary complex, complex holding zero and
+    positive imaginary parts (mixed), complex with negative imaginary part."""
+    return [[n for n in n2s if n[2] == "float"],
+            [n for n in n2s if n[2] == "complex" and n[1] == 0],
+            [n for n in n2s if n[2] == "complex" and n[1] >= 0],
+            [n for n in n2s if n[1] < 0]]
 
 
 def cases(shard):
-    _, tier, n1, mode = shard
+    _, tier, n1type, n1, mode = shard
+    layout = LAYOUT[mode]
+    n1s = n1_values(tier) if n1 is None else [n1]
     n2s = n2_values(tier)
-    if mode == "scalar":
-        for n2 in n2s:
-            for t in thetas(tier, n1, [n2]):
-                yield dict(part="optics", mode=mode, n1=n1, n2=[list(n2)],
-                           theta=[t])
-    elif mode == "theta-array":
-        for n2 in n2s:
-            yield dict(part="optics", mode=mode, n1=n1, n2=[list(n2)],
-                       theta=thetas(tier, n1, [n2]))
-    else:
-        groups = [
-            [n for n in n2s if n[2] == "float"],
-            [n for n in n2s if n[2] == "complex" and n[1] == 0],
-            [n for n in n2s if n[2] == "complex"],          # mixed
-        ]
-        for group in groups:
-            for t in thetas(tier, n1, group):
-                yield dict(part="optics", mode=mode, n1=n1,
-                           n2=[list(n) for n in group], theta=[t])
+    for n2 in (n2_groups(n2s) if layout[1] else [[n] for n in n2s]):
+        if mode == "n1-n2-arrays":      # element-wise pairs, every rotation
+            n1_sets = [[n1s[(i + rot) % len(n1s)] for i in range(len(n2))]
+                       for rot in range(len(n1s))]
+        else:
+            n1_sets = [n1s]
+        ts = thetas(tier, n1s, n2)
+        for n1_set in n1_sets:
+            for theta in ([ts] if layout[2] else [[t] for t in ts]):
+                yield dict(part="optics", mode=mode, n1type=n1type,
+                           n1=n1_set, n2=[list(n) for n in n2], theta=theta)
+
+
+def shaped(values, form):
+    if form is None:
+        return values[0]
+    arr = np.array(values)
+    return arr if form == "row" else arr[:, None]
 
 
 def elements(case):
-    return [(tuple(n2), t) for n2 in case["n2"] for t in case["theta"]]
+    """(n1, n2, theta) of every element of the result, in C order."""
+    names = ("n1", "n2", "theta")
+    index = [shaped(list(range(len(case[name]))), form)
+             for name, form in zip(names, LAYOUT[case["mode"]])]
+    return [(case["n1"][i], tuple(case["n2"][j]), case["theta"][k])
+            for i, j, k in zip(*(np.ravel(a) for a in
+                                 np.broadcast_arrays(*index)))]
 
 
 def is_mixed(case):
@@ -113,21 +147,19 @@ def is_mixed(case):
 
 def nontrivial(case):
     """complex-typed n2, total reflection, or theta in {0, Brewster, 90}"""
-    n1 = case["n1"]
     return any(kind == "complex" or beyond_critical(n1, re, im, t)
                or t in (0.0, 90.0) or (im == 0 and t == brewster(n1, re))
-               for (re, im, kind), t in elements(case))
+               for n1, (re, im, kind), t in elements(case))
 
 
 def arguments(case):
-    def value(n):
-        return complex(n[0], n[1]) if n[2] == "complex" else float(n[0])
-    n2 = [value(n) for n in case["n2"]]
-    if case["mode"] == "scalar":
-        return case["n1"], n2[0], float(case["theta"][0])
-    if case["mode"] == "theta-array":
-        return case["n1"], n2[0], np.array(case["theta"], dtype=float)
-    return case["n1"], np.array(n2), float(case["theta"][0])
+    n1 = [complex(v, 0.0) if case["n1type"] == "complex" else float(v)
+          for v in case["n1"]]
+    n2 = [complex(n[0], n[1]) if n[2] == "complex" else float(n[0])
+          for n in case["n2"]]
+    theta = [float(t) for t in case["theta"]]
+    return tuple(shaped(v, form)
+                 for v, form in zip((n1, n2, theta), LAYOUT[case["mode"]]))
 
 
 def describe(n1, n2, theta):
@@ -188,34 +220,53 @@ def judge_fresnel(n1, n2, theta, rv, rh):
     return None
 
 
-def check(case):
+def call(name, case, args, shape):
+    """(flat arrays of the values returned, None) or (None, violation). A
+    fresnel that rejects Im n2 < 0 yields no values."""
     from typhon.physics import em
-    n1, n2, theta = arguments(case)
-    shape = np.broadcast(n2, theta).shape
+    where = "%s%r" % (name, args)
+    try:
+        with np.errstate(all="ignore"):
+            out = getattr(em, name)(*args)
+    except Exception as e:
+        if name == "fresnel" and type(e) in (Exception, ValueError) \
+                and any(n[1] < 0 for n in case["n2"]):
+            return [], None
+        key = "exception/%s/%s" % (name, type(e).__name__)
+        if case["n1type"] == "complex":
+            key += "/complex-typed-n1"
+        return None, (key, None, repr(e)[:200], where)
+    if name == "snell":
+        out = (out,)
+    elif not (isinstance(out, tuple) and len(out) == 2):
+        return None, ("fresnel/not-a-pair", "(Rv, Rh)", repr(out)[:100], where)
+    for p in out:
+        if np.shape(p) != shape:
+            return None, (name + "/result-shape", list(shape),
+                          list(np.shape(p)), where)
+    return [np.asarray(p).ravel() for p in out], None
+
+
+def check(case):
+    args = arguments(case)
+    shape = np.broadcast(*args).shape
+    angle, exc = call("snell", case, args, shape)
+    if exc:
+        return [exc], 0
+    if np.iscomplexobj(angle[0]):
+        return [("snell/complex-result", "real angle", str(angle[0].dtype),
+                 "")], 0
+    coeffs, exc = call("fresnel", case, args, shape)
+    if exc:
+        return [exc], 0
     elems = elements(case)
     mixed = is_mixed(case)
     bad = {}
-    results = {}
-    for name in ("snell", "fresnel"):
-        try:
-            with np.errstate(all="ignore"):
-                results[name] = getattr(em, name)(n1, n2, theta)
-        except Exception as e:
-            # fresnel calls snell: one root cause, one key
-            return [("exception/%s/%s" % (name, type(e).__name__), None,
-                     repr(e)[:200], "%s(%r, %r, %r)" % (name, n1, n2, theta))
-                    ], 0
-    parts = [results["snell"], results["fresnel"][0], results["fresnel"][1]]
-    for name, p in zip(("snell", "fresnel", "fresnel"), parts):
-        if np.shape(p) != shape:
-            return [(name + "/result-shape", list(shape), list(np.shape(p)),
-                     "%s(%r, %r, %r)" % (name, n1, n2, theta))], 0
-    t2, rv, rh = (np.asarray(p).ravel() for p in parts)
-    if np.iscomplexobj(t2):
-        return [("snell/complex-result", "real angle", str(t2.dtype), "")], 0
-    for i, (n2i, t) in enumerate(elems):
-        for v in (judge_snell(n1, n2i, t, float(t2[i]), mixed),
-                  judge_fresnel(n1, n2i, t, rv[i], rh[i])):
+    for i, (n1, n2, t) in enumerate(elems):
+        found = [judge_snell(n1, n2, t, float(angle[0][i]), mixed)]
+        if coeffs:
+            found.append(judge_fresnel(n1, n2, t, coeffs[0][i], coeffs[1][i]))
+        for v in found:
             if v is not None:
                 bad.setdefault(v[0], v)
     return list(bad.values()), len(elems)
